@@ -5,7 +5,8 @@ Implementation under test (imported from /repo/src as it is now):
   pytezos.michelson.parse.michelson_to_micheline / MichelsonParser / SimpleMichelsonLexer
 
 Comparison (A), evaluated by vm_compute inside coqc:
-  (i)   text = micheline_to_michelson(e, inline) lexed by the MODEL lexer  ==  fmt_tokens e   (Printer.v)
+  (i)   text = micheline_to_michelson(e, inline)  ==  format_text inline e  byte for byte (Printer.v), and the
+        MODEL lexer on it gives fmt_tokens e
   (ii)  PLY lexer token stream of a text  ==  model lexer (Lexer.v) on the same text
   (iii) michelson_to_micheline(text)       ==  parse_text (Parser.v)   (accept / reject / tree)
   on formatted texts (both layouts), re-laid-out texts (random white space and comments between the
@@ -25,14 +26,14 @@ IMPORTS = 'From PV Require Import Codec.Micheline Codec.Printer Codec.Lexer Code
 PRELUDE = '''
 (* one comparison function for all generated cases; the expected answer is always [true] *)
 Inductive ccase : Type :=
-| CFmt (e : node) (txt : bytes)                    (* (i)  model lexer on the formatter's text = fmt_tokens e *)
+| CFmt (e : node) (inline : bool) (txt : bytes)    (* (i)  the text is format_text inline e; model lexer on it = fmt_tokens e *)
 | CTxt (txt : bytes) (l : lexres) (r : tres)       (* (ii) PLY token stream, (iii) michelson_to_micheline outcome *)
 | CName (t : byte) (n : option bytes)              (* tags.py, tag -> name *)
 | CTag (n : bytes) (t : option byte)               (* tags.py, name -> tag *)
 | CFramed (n : bytes) (a : bool) (r : bool).       (* is_framed *)
 Definition chk (c : ccase) : bool :=
   match c with
-  | CFmt e txt => lexres_eqb (lex txt) (LexOk (fmt_tokens e))
+  | CFmt e inline txt => bytes_eqb (format_text inline e) txt && lexres_eqb (lex txt) (LexOk (fmt_tokens e))
   | CTxt txt l r => lexres_eqb (lex txt) l && tres_agree (parse_text txt) r
   | CName t n => option_eqb bytes_eqb (name_of_tag t) n
   | CTag n t => option_eqb byte_eqb (tag_of_name n) t
@@ -520,6 +521,32 @@ CORNER_TEXTS = [
     'PUSH string "a\\"b\\\\c\\n"', 'PUSH bytes 0x', 'PUSH (option (pair (nat %x) (int :y))) (Some (Pair 1 -1))',
 ]
 
+# bounded-exhaustive stream for the grammar: every sequence of these eight tokens up to a length
+GRAMMAR_ALPHABET = ['DROP', '%a', '1', '{', '}', '(', ')', ';']
+# random token soup biased towards almost-well-formed programs
+SOUP_TOKENS = ['DROP', 'PUSH', 'nat', 'Pair', 'pair', 'IF', 'Elt', 'Unit', 'code', '%a', ':t', '@v', '1', '-2', '"s"', '0x00',
+               '{', '}', '{', '}', '(', ')', '(', ')', ';', ';', '{}', '{ }', 'CADR', 'x']
+
+
+def exhaustive_texts(max_len):
+    import itertools
+    for n in range(0, max_len + 1):
+        for toks in itertools.product(GRAMMAR_ALPHABET, repeat=n):
+            yield ' '.join(toks)
+
+
+_SHARED_PARSER = None
+
+
+def py_parse_shared(text):
+    """michelson_to_micheline with one parser object reused (PLY table construction costs 2 ms per call otherwise)"""
+    global _SHARED_PARSER
+    _, P, _ = impl()
+    if _SHARED_PARSER is None:
+        _SHARED_PARSER = P.MichelsonParser()
+    return lib.call(P.michelson_to_micheline, text, parser=_SHARED_PARSER)
+
+
 MUT_CHARS = '(){};"\\#/*-0x:%@._ \n\tAaZz9'
 
 
@@ -697,7 +724,8 @@ def run(ctx: lib.Ctx) -> None:
                 'control and Latin-1/astral characters, boundary and huge integers, bytes), code (every instruction primitive, '
                 'several arguments, nested code, CREATE_CONTRACT scripts), scripts and section lists; each formatted with '
                 'inline=True and False. texts: those formatted texts, the same tokens re-laid-out with random white space and '
-                'comments, 1-3 character mutations of them, and a fixed list of corner cases; plus arbitrary-shape Micheline '
+                'comments, 1-3 character mutations of them, a fixed list of corner cases, random token soup, and EVERY sequence of '
+                'length <= 4 (quick) / 5 (thorough) over the eight tokens DROP %a 1 { } ( ) ;  plus arbitrary-shape Micheline '
                 '(any primitive anywhere) for the correspondence only. non-trivial = expression with >= 3 nodes / text with '
                 '>= 3 characters; distinct = distinct canonical JSON / text')
     violations = 0
@@ -796,9 +824,9 @@ def run(ctx: lib.Ctx) -> None:
                     violate(f'micheline_to_michelson raised {type(text).__name__}: {text}'[:200],
                             {'expr': e, 'inline': inline, 'repro': repro(e, inline)})
                 continue
-            if lit is not None and latin1(text) is not None and 'inner-sigil-annot' not in cls and text not in seen_text:
+            if lit is not None and latin1(text) is not None and 'inner-sigil-annot' not in cls and not (text in seen_text and kind.startswith('sweep')):
                 # (an annotation with an inner sigil is not one ANNOT token: outside fmt_tokens' domain)
-                cases.append(f'CFmt {lit} {cb(latin1(text))}')
+                cases.append(f'CFmt {lit} {lib.cbool(inline)} {cb(latin1(text))}')
                 meta.append(('fmt', e, inline, text))
                 seen_text.add(text)
             texts.setdefault(text, 'formatted')
@@ -856,6 +884,13 @@ def run(ctx: lib.Ctx) -> None:
             texts.setdefault(m, 'mutated')
     for t in CORNER_TEXTS + corpus_texts:
         texts[t] = 'corner'
+    for _ in range(ctx.n(400, 6000)):
+        k = rng.choice([1, 2, 3, 3, 4, 5, 6, 8, 10])
+        texts.setdefault(rng.choice(['', ' ', '']).join(rng.choice(SOUP_TOKENS) + rng.choice([' ', ' ', '']) for _ in range(k)), 'soup')
+    glen = ctx.n(4, 5)
+    for t in exhaustive_texts(glen):
+        texts.setdefault(t, 'grammar')
+    ctx.extra['grammar_exhaustive'] = f'all {sum(len(GRAMMAR_ALPHABET) ** n for n in range(glen + 1))} sequences of length <= {glen} over {GRAMMAR_ALPHABET}'
 
     for t, origin in texts.items():
         b = latin1(t)
@@ -864,7 +899,7 @@ def run(ctx: lib.Ctx) -> None:
         if origin == 'formatted' and len(t) > 1500:
             continue
         toks = py_lex(t)
-        ok, val = py_parse(t)
+        ok, val = py_parse_shared(t) if origin == 'grammar' else py_parse(t)
         ctx.case(('text', t), nontrivial=len(t) >= 3, kind='text-' + origin + ('-accepted' if ok else '-rejected'),
                  sample={'text': t, 'parsed': canon(val) if ok else 'rejected'} if len(t) < 60 and origin != 'formatted' else None)
         cases.append(f'CTxt {cb(b)} {clexres(toks)} {ctres(ok, val)}')
@@ -890,6 +925,7 @@ def run(ctx: lib.Ctx) -> None:
         if first_fmt:
             _, e, inline, text = first_fmt
             rep.update({'expr': e, 'inline': inline, 'text': text,
+                        'model_text': ctx.coq_eval(IMPORTS, f'format_text {lib.cbool(inline)} {cnode(e)}'),
                         'model_tokens': ctx.coq_eval(IMPORTS, f'fmt_tokens {cnode(e)}'),
                         'model_lex_of_text': ctx.coq_eval(IMPORTS, f'lex {cb(latin1(text))}')})
         if first_txt:
